@@ -159,7 +159,7 @@ char *verif_strdup(const char *s, const char *f)
 }
 
 /* ------------------------------------------------------------------ io */
-int vh_io_fd = -1, vh_io_n = 0, vh_io_pos = 0, vh_io_calls = 0;
+int vh_io_fd = -1, vh_io_n = 0, vh_io_pos = 0, vh_io_calls = 0, vh_io_errs = 0;
 int vh_io_script[VH_IO_MAX];
 static int io_next(void)
 {
@@ -175,6 +175,7 @@ ssize_t verif_read(int fd, void *b, size_t n)
 		int s = io_next();
 		if (s < 0)
 		{
+			vh_io_errs++;
 			errno = -s;
 			return -1;
 		}
@@ -190,6 +191,7 @@ ssize_t verif_write(int fd, const void *b, size_t n)
 		int s = io_next();
 		if (s < 0)
 		{
+			vh_io_errs++;
 			errno = -s;
 			return -1;
 		}
